@@ -201,7 +201,7 @@ func c16Embedded(g *Gen, id string) ap.Item {
 	case 1:
 		return ap.Actor{ID: ap.IRI(id), Type: ap.PersonType}
 	case 2:
-		return &ap.Activity{ID: ap.IRI(id), Type: ap.CreateType, Object: ap.IRI(c10Pool[12])}
+		return &ap.Activity{ID: ap.IRI(id), Type: ap.CreateType, Object: ap.IRI(c10Cur[12])}
 	case 3:
 		return &ap.Place{ID: ap.IRI(id), Type: ap.PlaceType}
 	default:
@@ -222,7 +222,7 @@ func c16Idless(g *Gen) ap.Item {
 
 // an item for a single or multi position (valid stream)
 func c16Item(g *Gen) ap.Item {
-	id := c10Pool[g.Intn(len(c10Pool))]
+	id := c10Cur[g.Intn(len(c10Cur))]
 	switch g.Intn(10) {
 	case 0:
 		return nil
@@ -241,9 +241,9 @@ func c16Item(g *Gen) ap.Item {
 
 // an entry of an addressing list (valid stream): no links with ids
 func c16Entry(g *Gen) ap.Item {
-	id := c10Pool[g.Intn(len(c10Pool))]
+	id := c10Cur[g.Intn(len(c10Cur))]
 	if g.Chance(1, 2) {
-		id = c10Pool[g.Intn(6)]
+		id = c10Cur[g.Intn(c10CurBias)]
 	}
 	switch g.Intn(12) {
 	case 0:
@@ -326,8 +326,8 @@ func c16Random(g *Gen, max int) c16Input {
 
 // odd stream: things the oracle does not judge
 func c16OddItem(g *Gen) ap.Item {
-	id := ap.IRI(c10Pool[g.Intn(len(c10Pool))])
-	items := ap.ItemCollection{c16Embedded(g, c10Pool[g.Intn(len(c10Pool))]), ap.IRI(c10Pool[0])}
+	id := ap.IRI(c10Cur[g.Intn(len(c10Cur))])
+	items := ap.ItemCollection{c16Embedded(g, c10Cur[g.Intn(len(c10Cur))]), ap.IRI(c10Cur[0])}
 	switch g.Intn(12) {
 	case 0:
 		return &ap.Collection{ID: id, Type: ap.CollectionType}
@@ -344,7 +344,7 @@ func c16OddItem(g *Gen) ap.Item {
 	case 6:
 		return &ap.OrderedCollection{ID: id, Type: ap.NoteType, OrderedItems: items}
 	case 7:
-		return ap.IRIs{id, ap.IRI(c10Pool[1])}
+		return ap.IRIs{id, ap.IRI(c10Cur[1])}
 	case 8:
 		return &ap.ItemCollection{id, nil, c16Idless(g)}
 	case 9:
@@ -357,7 +357,7 @@ func c16OddItem(g *Gen) ap.Item {
 }
 
 func c16OddEntry(g *Gen) ap.Item {
-	id := ap.IRI(c10Pool[g.Intn(len(c10Pool))])
+	id := ap.IRI(c10Cur[g.Intn(len(c10Cur))])
 	switch g.Intn(8) {
 	case 0:
 		return &ap.Link{ID: id, Type: ap.LinkType}
@@ -456,9 +456,11 @@ func runC16(seed int64, n int, tier string, outDir string) (*Report, error) {
 	}
 
 	// (3) Coq: the four entry points
-	hdr := "From AP.Model Require Import Prelude Vocab Pred IriEq Recip Flatten.\n" +
+	// (b47) both instances of the model: flatten_fields_m (plain URL grammar) and flatten_fields idequ (wide library models)
+	hdr := "From AP.Model Require Import Prelude Vocab Pred IriEq IriEqU Recip RecipU Flatten.\n" +
 		"Definition ok (c : fkind * item * outcome item) : bool := let '(fk, x, o) := c in\n" +
-		"  match x with IObj true k fs => outcome_eqb item_eqb (omap (IObj true k) (flatten_fields_m fk fs)) o | _ => false end.\n"
+		"  match x with IObj true k fs => outcome_eqb item_eqb (omap (IObj true k) (flatten_fields_m fk fs)) o &&\n" +
+		"    outcome_eqb item_eqb (omap (IObj true k) (flatten_fields idequ fk fs)) o | _ => false end.\n"
 	cw := NewCaseWriter(outDir, "Cases_C16", hdr, "fkind * item * outcome item")
 	// the same inputs flattened TWICE on the real code, against the model applied twice, together with the domain
 	// of the whole-value theorems (C16_value / C16_idempotent: fields_goodb over the id pool): every input of the
